@@ -319,6 +319,7 @@ class VSocket:
             raise BlockingIOError(errno.EAGAIN, 'Resource temporarily unavailable')
         if r is RST:
             w.event('recv-rst', self.fd)
+            self.saw_rst = True
             raise ConnectionResetError(errno.ECONNRESET, 'Connection reset by peer')
         w.event('recv', self.fd, len(r))
         return r
@@ -341,6 +342,11 @@ class VSocket:
         if self.conn is None and not self.listening:
             raise OSError(errno.ENOTCONN, 'Transport endpoint is not connected')
         if self.conn is not None:
+            # a connection the peer has aborted is in state CLOSE as soon as the RST has arrived, read or not: Linux answers ENOTCONN
+            out = getattr(self.conn, 'out', None)
+            if getattr(self, 'saw_rst', False) or (out and out[0] is RST):
+                self.world.event('peer-reset-seen', self.fd)
+                raise OSError(errno.ENOTCONN, 'Transport endpoint is not connected')
             self.conn.tool_closed()
 
     def close(self):
